@@ -161,6 +161,7 @@ static int32_t cb_msg(qb_ipcs_connection_t *c, void *data, size_t size)
 	case OP_REF: qb_ipcs_connection_ref(c); sc->app_refs++; sc->client_refs++; enqueue(sc, 0, seq, 0, 0, NULL, 0, TP_RES_MIN); break;
 	case OP_UNREF: if (sc->client_refs > 0) { sc->client_refs--; sc->app_refs--; qb_ipcs_connection_unref(c); } enqueue(sc, 0, seq, 0, 0, NULL, 0, TP_RES_MIN); break;
 	case OP_CLOSED_RETRY: sc->closed_retry_left = (int)q->arg1; enqueue(sc, 0, seq, 0, 0, NULL, 0, TP_RES_MIN); break;
+	case OP_STALL: usleep((q->arg1 > 400 ? 400 : q->arg1) * 1000); break;
 	case OP_BACKOFF: sc->backoff_left = (int)q->arg1; enqueue(sc, 0, seq, 0, 0, NULL, 0, TP_RES_MIN); break;
 	case OP_ITERATE: {
 		if (svc_destroyed) break;
